@@ -28,7 +28,7 @@ type UH struct {
 	U     *url.Url
 	Prov  string // parsed | resolved | cloned | new
 	From  int    // base / source handle id, -1 if none
-	QW    int    // last writer of the query: 0 text (parse, resolve, SetSearch), 1 list (parameter mutation)
+	QW    int    // last writer of the query: 0 text (parse, resolve, SetSearch), 1 list (parameter mutation), 2 nobody: a kept pair was written to from outside
 	SPs   []int  // parameter handles taken from this URL, oldest first
 	M     *model.URL
 	MDead bool // the model cannot judge this URL any more (IDNA) or has already disagreed
@@ -42,6 +42,8 @@ type SH struct {
 	M  []Pair // C11 list model
 	// Snap: made by SearchParams.Clone as a snapshot (not expected to follow the URL)
 	Snap bool
+	// Kept: pairs a callback of Iterate kept a pointer to (C12: written to later, from outside any call)
+	Kept []*url.NameValuePair
 }
 
 type Event struct {
@@ -71,6 +73,9 @@ type World struct {
 	P           url.Parser // nil => package-level functions (the default parser)
 	Cfg2        *Config
 	guard       bool // run library calls on a helper goroutine and detect blocking (C02)
+	// Ent: URLs that share one parameter list because the caller asked for it
+	// (u.SetSearchParams(v.SearchParams())): URL id -> group. Isolation is not asked within a group.
+	Ent map[int]int
 	P2          url.Parser // second parser (cross-parser resolution), nil if the plan has none
 	U           map[int]*UH
 	S           map[int]*SH
@@ -571,7 +576,11 @@ func (w *World) execInline(i int, op Op) (ev Event) {
 			sh.SP.SortAbsolute()
 		case "sp.iter":
 			a, b := string(op.A), string(op.B)
+			sh.Kept = nil // the pairs of the most recent walk
 			sh.SP.Iterate(func(p *url.NameValuePair) {
+				if len(sh.Kept) < 4 {
+					sh.Kept = append(sh.Kept, p)
+				}
 				switch op.W {
 				case 1:
 					if p.Name == a {
@@ -603,6 +612,25 @@ func (w *World) execInline(i int, op Op) (ev Event) {
 					_ = sh.SP.GetAll(p.Name)
 				}
 			})
+		}
+	case "sp.poke":
+		// C12: NameValuePair is an exported struct and Iterate hands out pointers; a caller that kept
+		// one writes to it after Iterate has returned. Nothing can be promised about the query until
+		// the next list operation (the library was not called), but then it must be back in step.
+		sh := w.S[op.H]
+		if sh == nil || len(sh.Kept) == 0 {
+			ev.Skipped = true
+			return
+		}
+		ev.TargetS, ev.Target, ev.Mut = op.H, sh.Of, true
+		p := sh.Kept[op.W%len(sh.Kept)]
+		if op.B != "" {
+			p.Name += string(op.B)
+		} else {
+			p.Value += string(op.A)
+		}
+		if uh := w.U[sh.Of]; uh != nil {
+			uh.QW = 2
 		}
 	case "sp.clone":
 		// C02 only: the public SearchParams.Clone (a second list attached to the same URL)
@@ -664,6 +692,26 @@ func (w *World) execInline(i int, op Op) (ev Event) {
 		}
 		ev.Target, ev.Mut = op.H, true
 		uh.U.SetSearchParams(sh.SP)
+		if sh.Of != op.H {
+			if w.Ent == nil {
+				w.Ent = map[int]int{}
+			}
+			g := w.Ent[sh.Of]
+			if g == 0 {
+				g = w.Ent[op.H]
+			}
+			if g == 0 {
+				g = len(w.Ent) + 1
+			}
+			if old := w.Ent[op.H]; old != 0 && old != g {
+				for id, x := range w.Ent {
+					if x == old {
+						w.Ent[id] = g
+					}
+				}
+			}
+			w.Ent[op.H], w.Ent[sh.Of] = g, g
+		}
 		if op.D != 0 {
 			// What SetSearchParams does with the handles a caller still holds (the replaced list, the
 			// list handed in) is nobody's promise: they are forgotten. The URL's list is from now on
